@@ -157,7 +157,8 @@ static inline void build_library(Built& B, const J& al) {
     memcpy(&unit, ub, 8);
     memcpy(&prec, pb, 8);
     B.lib.init(j_str(al["name"]).c_str(), unit, prec);
-    B.Q.q = 4.0 * (double)llround(unit / prec);
+    // quanta per database unit: 4 unless the description asks for a finer lattice
+    B.Q.q = (al.has("qd") ? (double)al["qd"].i() : 4.0) * (double)llround(unit / prec);
     for (const char* key : {"cells", "outside"}) {
         const J& cs = al[key];
         for (size_t i = 0; i < cs.size(); i++) {
